@@ -3,14 +3,26 @@
 check of the property it was written for, reverts the patch, and compares the exit code with what meta.json records
 (1 = VIOLATION; 2 = UNDECIDED for the two changes that restructure code beyond what can be re-verified).
 Usage: python3 vc/seeded_regress.py [id-substring ...]      (leaves /repo clean; never commits anything)"""
-import json, os, subprocess, sys, glob
+import json, os, subprocess, sys, glob, tempfile, atexit
 VERIF = os.path.dirname(os.path.dirname(os.path.abspath(__file__)))
+REPO = "/repo"
+ENV = dict(os.environ)
+if "--scratch" in sys.argv:
+    # work on a scratch worktree of /repo's HEAD (outside /repo and /verif, removed at exit) so that /repo itself stays
+    # free for other work; the Verus units read it through VERIF_REPO (the Kani harnesses of C14 still read /repo)
+    sys.argv.remove("--scratch")
+    REPO = tempfile.mkdtemp(prefix="verif_regress_", dir="/var/tmp")
+    os.rmdir(REPO)
+    subprocess.run(["git", "-C", "/repo", "worktree", "add", "--detach", REPO, "HEAD"], check=True, capture_output=True)
+    _scratch = REPO
+    atexit.register(lambda: subprocess.run(["git", "-C", "/repo", "worktree", "remove", "--force", _scratch], capture_output=True))
+    ENV["VERIF_REPO"] = REPO
 EXPECT2 = {"C02-range-scan-sorted-only-when-nothing-stored", "C12-header-compared-ignoring-case"}
 def main():
     sel = sys.argv[1:]
     bad = 0
-    if subprocess.run(["git", "-C", "/repo", "status", "--porcelain"], capture_output=True, text=True).stdout.strip():
-        print("refusing: /repo has local changes"); return 2
+    if subprocess.run(["git", "-C", REPO, "status", "--porcelain"], capture_output=True, text=True).stdout.strip():
+        print("refusing: %s has local changes" % REPO); return 2
     for d in sorted(glob.glob(os.path.join(VERIF, "seeded", "*"))):
         name = os.path.basename(d)
         if sel and not any(x in name for x in sel):
@@ -18,13 +30,13 @@ def main():
         meta = json.load(open(os.path.join(d, "meta.json")))
         pid = meta["property"]
         patch = os.path.join(d, "patch.diff")
-        a = subprocess.run(["git", "-C", "/repo", "apply", patch], capture_output=True, text=True)
+        a = subprocess.run(["git", "-C", REPO, "apply", patch], capture_output=True, text=True)
         if a.returncode != 0:
             print("%-55s patch does not apply: %s" % (name, a.stderr.strip()[:100])); bad += 1; continue
         try:
-            p = subprocess.run([os.path.join(VERIF, "check"), pid], capture_output=True, text=True, cwd=VERIF)
+            p = subprocess.run([os.path.join(VERIF, "check"), pid], capture_output=True, text=True, cwd=VERIF, env=ENV)
         finally:
-            subprocess.run(["git", "-C", "/repo", "checkout", "--", "."], check=True)
+            subprocess.run(["git", "-C", REPO, "checkout", "--", "."], check=True)
         want = meta.get("expected_exit", 2 if name in EXPECT2 else 1)
         line = [l for l in p.stdout.splitlines() if l.startswith("FAILED-OBLIGATION") or l.startswith("UNDECIDED:")][:1]
         ok = p.returncode == want
@@ -44,17 +56,17 @@ def main():
         chain = [os.path.join(VERIF, "findings", x, "fix.diff") for x in f.get("revert_after", [])] + [fix]
         a = None
         for fx in chain:
-            a = subprocess.run(["git", "-C", "/repo", "apply", "-R", fx], capture_output=True, text=True)
+            a = subprocess.run(["git", "-C", REPO, "apply", "-R", fx], capture_output=True, text=True)
             if a.returncode != 0:
                 break
         if a.returncode != 0:
-            subprocess.run(["git", "-C", "/repo", "checkout", "--", "."], check=True)
+            subprocess.run(["git", "-C", REPO, "checkout", "--", "."], check=True)
             print("%-55s fix does not reverse-apply: %s" % (name, a.stderr.strip()[:100])); bad += 1; continue
         pid = f["properties"][0]
         try:
-            p = subprocess.run([os.path.join(VERIF, "check"), pid], capture_output=True, text=True, cwd=VERIF)
+            p = subprocess.run([os.path.join(VERIF, "check"), pid], capture_output=True, text=True, cwd=VERIF, env=ENV)
         finally:
-            subprocess.run(["git", "-C", "/repo", "checkout", "--", "."], check=True)
+            subprocess.run(["git", "-C", REPO, "checkout", "--", "."], check=True)
         line = [l for l in p.stdout.splitlines() if l.startswith("FAILED-OBLIGATION") or l.startswith("UNDECIDED:")][:1]
         want = f.get("revert_expected_exit", 1)
         ok = p.returncode == want
